@@ -146,3 +146,30 @@ def pad(m, meta):
             if bad:
                 return {"reproduced": True, "input": {"padding": (l, t, r, b), "fill": fill, "render_size": (w, h)}, "observed": bad[:5]}
     return {"reproduced": False, "note": f"{len(cands) * 3} paddings tried around the model"}
+
+
+def format_render(m, meta):
+    """old API: format(image, spec) / _format_render on the concrete VT model: the output must blank every cell of the
+    max(render, minimum) box outside the render"""
+    import itertools
+    import tests
+    from PIL import Image
+    from term_image.image import BlockImage
+    from replay.vt import VT
+    cands = [(max(ival(m, "cols", 2), 1), max(ival(m, "lines", 1), 1), max(ival(m, "width", 1), 1), max(ival(m, "height", 1), 1))]
+    cands += list(itertools.product((1, 2, 4), (1, 2), (1, 3, 6), (1, 2, 4)))
+    for cols, lines, width, height in cands:
+        if max(cols, width) > 70 or max(lines, height) > 25:
+            continue
+        for h_align, v_align in itertools.product("<|>", "^-_"):
+            img = BlockImage(Image.new("RGB", (cols, 2 * lines), (10, 20, 30)), width=cols, height=lines)
+            out = format(img, f"{h_align}{width}.{v_align}{height}#")
+            PW, PH = max(cols, width), max(lines, height)
+            vt = VT(width=PW + 3, height=PH + 3, row=1, col=0).feed(out)
+            missing = [(r, c) for r in range(1, 1 + PH) for c in range(PW) if (r, c) not in vt.cells]
+            extra = [k for k in vt.cells if not (1 <= k[0] < 1 + PH and 0 <= k[1] < PW)]
+            if missing or extra or out.count("\n") != PH - 1:
+                return {"reproduced": True, "input": {"image(cols,lines)": (cols, lines), "spec": f"{h_align}{width}.{v_align}{height}#"},
+                        "observed": {"cells_of_the_padded_box_not_written": missing[:6], "cells_outside": extra[:6], "newlines": out.count("\n")},
+                        "expected": f"a {PW}x{PH} box fully blanked outside the render"}
+    return {"reproduced": False}
